@@ -1104,6 +1104,14 @@ func closedPortCase(res *vkit.Result, c Case) {
 	if c.Trace {
 		gun["httptrace"] = map[string]any{"dump": true, "trace": true}
 	}
+	switch c.Variant {
+	case "tls": // the refused connection would have been a TLS one
+		if c.Gun == "connect" {
+			gun["connect-ssl"] = true
+		} else {
+			gun["ssl"] = true
+		}
+	}
 	samples, rr, err := runPool(poolConf(map[string]any{"type": "uri", "file": path, "passes": 2}, gun, c.Instances), 240*time.Second)
 	if err != nil {
 		res.Inconclusive(true, "pool rejected: %v", err)
@@ -1202,6 +1210,8 @@ func main() {
 	for _, g := range []string{"http", "connect"} {
 		cases = append(cases, Case{Gun: g, Behaviour: "closed-port", Instances: 2})
 		cases = append(cases, Case{Gun: g, Behaviour: "closed-port", Instances: 2, Trace: true})
+		cases = append(cases, Case{Gun: g, Behaviour: "closed-port", Variant: "tls", Instances: 2})
+		cases = append(cases, Case{Gun: g, Behaviour: "closed-port", Variant: "tls", Instances: 1, Trace: true})
 	}
 	for _, b := range []string{"h2-statuses", "tls12-client-cert-required", "tls13-client-cert-required", "tls-getconfig-fails", "tls-no-h2"} {
 		cases = append(cases, Case{Gun: "http2", Behaviour: b, Instances: 2, Rounds: 4})
